@@ -28,6 +28,7 @@ func init() {
 			ruleC08Parent(c)
 			ruleC08Adapters(c)
 			ruleC08TxComplete(c)
+			ruleListenerRegistered(c, "C08.REGISTER", "AddTxCompleteListener", "txCompleteListeners")
 			ruleC08Actions(c)
 			ruleC08OwnFilter(c)
 		},
@@ -67,6 +68,8 @@ func init() {
 			ruleC16Context(c)
 			ruleC16NoEscalate(c)
 			ruleProceedTable(c, "C16.PROCEED")
+			// a refusal recorded in the child's error holder must survive the hand-over to the parent context
+			ruleParentChain(c, "C16.CHAIN")
 		},
 	})
 	register(&Property{
@@ -84,6 +87,7 @@ func init() {
 			ruleC17Snapshot(c)
 			ruleC17Timeline(c)
 			ruleC17NoCache(c)
+			ruleListenerRegistered(c, "C17.LISTENERS", "AddRestoreListener", "restoreListeners")
 		},
 	})
 }
@@ -447,6 +451,43 @@ func ruleC08TxComplete(c *Ctx) {
 		}
 		c.Check(ok, "C08.TXCOMPLETE", name, p.Pos(outer.Pos()), "tx-complete listeners are registered with tx.OnCommit on every successful path (skipped only when there are none)", why)
 	}
+	// exactly once per transaction: the registration (and the pre-commit run) may only sit in a
+	// function that runs as the body of the outermost bolt transaction — a joined (nested) call of
+	// Update/Batch must do neither again
+	bodies := map[*ssa.Function]bool{}
+	for _, site := range txSites(c) {
+		if site.Kinds["Update"] || site.Kinds["Batch"] {
+			for _, b := range site.Body {
+				bodies[b] = true
+			}
+		}
+	}
+	runPre := p.Method("boltz", "MutateContext", "runPreCommitActions")
+	for _, fn := range c.prodFuncs("boltz") {
+		for _, call := range callsIn(fn) {
+			what := ""
+			switch {
+			case isCallTo(call, runPre):
+				if fn.Name() == runPre.Name() {
+					continue // a context wrapper delegating the same method
+				}
+				what = "runs the pre-commit actions"
+			case isCallTo(call, onCommit):
+				if cl := anonFromArg(call.Common().Args[1]); cl != nil {
+					for _, k := range callsIn(cl) {
+						sig := k.Common().Signature()
+						if !k.Common().IsInvoke() && k.Common().StaticCallee() == nil && sig.Params().Len() == 1 && types.Identical(sig.Params().At(0).Type(), mc) {
+							what = "registers the tx-complete listeners"
+						}
+					}
+				}
+			}
+			if what == "" {
+				continue
+			}
+			c.Check(bodies[fn], "C08.TXCOMPLETE", FnName(fn)+": "+what, p.Pos(call.Pos()), "only inside the body of the outermost bolt transaction (once per transaction)", "outside the body closure of the outermost bolt transaction: a nested Update/Batch that joins a running transaction "+what+" again, so listeners fire once per nesting level instead of once per commit")
+		}
+	}
 	for _, k := range []string{"Update", "Batch"} {
 		c.Check(seen[k], "C08.TXCOMPLETE", "boltz: bbolt "+k+" transactions", "-", "the "+k+" transaction body was found and analysed", "no "+k+" transaction body found: tx-complete listeners cannot be shown to run for it")
 	}
@@ -618,7 +659,9 @@ func ruleC15Route(c *Ctx) {
 	c.Check(okH, "C15.ROUTE", FnName(hu), p.Pos(hu.Pos()), "forwards the mutate context and the same field checker to the child store's Update", "the child handler does not forward the caller's context/field checker")
 }
 
-func ruleC15Chain(c *Ctx) {
+func ruleC15Chain(c *Ctx) { ruleParentChain(c, "C15.CHAIN") }
+
+func ruleParentChain(c *Ctx, rule string) {
 	p := c.P
 	ni := p.SSAFunc(p.Method("boltz", "BaseStore", "newIndexingContext"))
 	c.Analysed(FnName(ni))
@@ -637,7 +680,45 @@ func ruleC15Chain(c *Ctx) {
 			}
 		}
 	}
-	c.Check(ok, "C15.CHAIN", FnName(ni), p.Pos(ni.Pos()), "a parent indexing context is created iff a parent store exists, with the same create flag, context, id and error holder", "the parent store's indexes are not chained with identical arguments/holder")
+	why := "the parent store's indexes are not chained with identical arguments/holder"
+	if ok {
+		// on every path: no return without the chaining call unless the store has no parent, and the
+		// parent context ends up in the Parent field of what is returned
+		isChain := func(in ssa.Instruction) bool {
+			call, isCall := in.(ssa.CallInstruction)
+			return isCall && call.Common().IsInvoke() && invokeNamed(call, "newIndexingContext")
+		}
+		if !noPathAvoiding(ni, isChain, func(from, to *ssa.BasicBlock) bool {
+			for f := range fi.edgeFacts(from, to) {
+				ff, _ := loadedField(f.V)
+				if f.Kind == "nonnil" && !f.Pol && sameVar(ff, parentFld) {
+					return true
+				}
+			}
+			return false
+		}) {
+			ok, why = false, "a return is reachable without creating the parent store's indexing context although a parent store exists (e.g. an early return): creates and updates through this store then skip the parent's indexes and constraints"
+		}
+		stored := false
+		icParent := p.Field("boltz", "IndexingContext", "Parent")
+		for _, b := range ni.Blocks {
+			for _, in := range b.Instrs {
+				if st, isSt := in.(*ssa.Store); isSt {
+					if f, _ := fieldOfAddr(st.Addr); sameVar(f, icParent) {
+						for _, sv := range phiLeaves(st.Val) {
+							if k, isCall := sv.(*ssa.Call); isCall && isChain(k) {
+								stored = true
+							}
+						}
+					}
+				}
+			}
+		}
+		if ok && !stored {
+			ok, why = false, "the parent store's indexing context is created but not stored in the Parent field"
+		}
+	}
+	c.Check(ok, rule, FnName(ni), p.Pos(ni.Pos()), "a parent indexing context is created iff a parent store exists (on every returning path), with the same create flag, context, id and error holder, and becomes the Parent of the result", why)
 	// GetParentContext: field forwarding table
 	gp := p.SSAFunc(p.Method("boltz", "PersistContext", "GetParentContext"))
 	c.Analysed(FnName(gp))
@@ -669,7 +750,7 @@ func ruleC15Chain(c *Ctx) {
 			missing = append(missing, k)
 		}
 	}
-	c.Check(len(missing) == 0, "C15.CHAIN", FnName(gp)+": forwards", p.Pos(gp.Pos()), "the parent persist context carries the same mutate context, id, field checker and create flag", "the parent persist context does not forward: "+strings.Join(missing, ", ")+" (a field-restricted update through the child store would then rewrite all shared fields)")
+	c.Check(len(missing) == 0, rule, FnName(gp)+": forwards", p.Pos(gp.Pos()), "the parent persist context carries the same mutate context, id, field checker and create flag", "the parent persist context does not forward: "+strings.Join(missing, ", ")+" (a field-restricted update through the child store would then rewrite all shared fields)")
 	// shares the child's holder into the fresh parent bucket (direction checked by C07.HOLDERPTR as well)
 	h := newHolderInfo(c)
 	shared := false
@@ -686,8 +767,8 @@ func ruleC15Chain(c *Ctx) {
 			}
 		}
 	}
-	c.Check(shared, "C15.CHAIN", FnName(gp)+": shares error holder", p.Pos(gp.Pos()), "errors recorded while persisting the shared fields land in the child's error holder", "the parent bucket does not inherit the child's error holder: failures on shared fields are lost")
-	c.Floor("C15.CHAIN", 3)
+	c.Check(shared, rule, FnName(gp)+": shares error holder", p.Pos(gp.Pos()), "errors recorded while persisting the shared fields land in the child's error holder", "the parent bucket does not inherit the child's error holder: failures on shared fields are lost")
+	c.Floor(rule, 3)
 }
 
 // ================================ C16 ===========================================================
@@ -1806,4 +1887,69 @@ func ruleC08DeleteFlows(c *Ctx) {
 	if okAll {
 		c.OK("C08.ONCE", name, p.Pos(del.Pos()), fmt.Sprintf("%d change-flow sources, each fired by exactly one mechanism (direct call or ranged slice), on every successful path after the removal", len(sources)))
 	}
+}
+
+// phiLeaves: the values a (possibly phi-joined) value can stand for.
+func phiLeaves(v ssa.Value) []ssa.Value {
+	var out []ssa.Value
+	seen := map[ssa.Value]bool{}
+	var walk func(x ssa.Value)
+	walk = func(x ssa.Value) {
+		if x == nil || seen[x] {
+			return
+		}
+		seen[x] = true
+		if phi, ok := x.(*ssa.Phi); ok {
+			for _, e := range phi.Edges {
+				walk(e)
+			}
+			return
+		}
+		out = append(out, x)
+	}
+	walk(v)
+	return out
+}
+
+// ruleListenerRegistered: a registration function adds the listener it is given on every path: every
+// return has passed an Append of that very parameter to the listener collection (registration is not
+// made conditional on anything — two distinct closures can share one code pointer).
+func ruleListenerRegistered(c *Ctx, rule, method, field string) {
+	p := c.P
+	fn := p.SSAFunc(p.Method("boltz", "DbImpl", method))
+	name := FnName(fn)
+	c.Analysed(name)
+	fld := p.Field("boltz", "DbImpl", field)
+	isAppend := func(in ssa.Instruction) bool {
+		call, ok := in.(ssa.CallInstruction)
+		if !ok {
+			return false
+		}
+		cal, _ := calleeOf(call.Common())
+		if cal == nil || cal.Name() != "Append" {
+			return false
+		}
+		args := call.Common().Args
+		if len(args) < 2 {
+			return false
+		}
+		if f, _ := fieldOfAddr(args[0]); !sameVar(f, fld) {
+			if f2, _ := loadedField(args[0]); !sameVar(f2, fld) {
+				return false
+			}
+		}
+		// the appended value is the listener parameter (possibly boxed)
+		v := args[len(args)-1]
+		for i := 0; i < 3; i++ {
+			switch x := v.(type) {
+			case *ssa.MakeInterface:
+				v = x.X
+			case *ssa.ChangeType:
+				v = x.X
+			}
+		}
+		return len(fn.Params) > 1 && v == ssa.Value(fn.Params[1])
+	}
+	ok := noPathAvoiding(fn, isAppend, nil)
+	c.Check(ok, rule, name, p.Pos(fn.Pos()), "every return has appended the given listener to "+field, "a return is reachable without appending the given listener to "+field+" (registration skipped or made conditional): that listener never runs")
 }
